@@ -169,8 +169,8 @@ def ownership(rep, u):
                         disposed = "free"
                     elif n.get("fn") == "tpt_msg_active_thr_count_dec":
                         disposed = "count_dec (posts completion, which frees)"
-                    elif n.get("fn") == "tpt_msg_one_by_one_send_next__int":
-                        pending_chain = n
+                    elif n.get("fn") in ("tpt_msg_one_by_one_send_next__int", "tpt_msg_send"):
+                        pending_chain = n             # result 0: a worker has the record in its queue
                     elif n.get("fn") == "tpt_msg_broadcast_send__int":
                         bcast = True
             else:
@@ -179,7 +179,7 @@ def ownership(rep, u):
                     try:
                         v0 = r_mpt.eval_expr(cond, {id(pending_chain): 0})
                         if bool(v0) == bool(truth):
-                            disposed = "chain scheduled (one-by-one send returned 0)"
+                            disposed = "chain scheduled (%s returned 0)" % pending_chain.get("fn")
                     except r_mpt.Unknown:
                         pass
                     pending_chain = None
@@ -496,7 +496,9 @@ def self_once(rep, u):
         fl = O | (S if skip else 0) | (D if direct else 0)
         pe = r_stride.PE(u, call_default={"calloc": 0x900000})
         binda = {"tp": 0x1000, "src": 0x2000, "flags": fl, "msg_cb": 0x3000, "udata": 0x4000, "done_cb": 0x5000,
-                 "tp_thread_count_max_get(tp)": 4}
+                 "tp_thread_count_max_get(tp)": 4,
+                 # the originator is a running thread of this pool and is the caller
+                 "tpt_is_running(src)": 1, "tpt_get_tp(src)": 0x1000, "tpt_get_current()": 0x2000}
         ca = 0
         for pos, c in a_sites:
             r, path = pe.reach_stmt(fa, fa.entry, set(fa.reachable_blocks()), binda, pos[0], fa.blocks[pos[0]].elems[pos[1]])
@@ -573,6 +575,17 @@ def run(rep, tier):
     # target": the outcome table of tpt_msg_send (return value, number of direct calls per path class) is C05's rule
     from props import c05
     rep.floor("tpt_msg_send acyclic paths", c05.send_paths(rep, tp.need(u, "tpt_msg_send")), 10)
+    from props import c10_audit
+    fl = tp.probe(tp.MSG_C, {"SYNC": "TP_BMSG_F_SYNC", "USLEEP": "TP_BMSG_F_SYNC_USLEEP", "SELF_DIRECT": "TP_MSG_F_SELF_DIRECT",
+                             "SELF_SKIP": "TP_BMSG_F_SELF_SKIP"}, "probe:bmsgflags2")
+    if any(v is None for v in fl.values()):
+        raise driver.AnalysisBroken("broadcast flag constants not foldable")
+    rep.floor("sites that act on behalf of the originator", c10_audit.self_membership_rule(rep, u), 3)
+    rep.floor("bsend_ex direct calls and single sends", c10_audit.bsend_count_rule(rep, u), 2)
+    rep.floor("synchronous broadcast send sites", c10_audit.sync_self_rule(rep, u, fl), 1)
+    c10_audit.sync_mask_rule(rep, u, fl)
+    rep.floor("one-by-one chain starters", c10_audit.obo_sibling_rule(rep, u), 2)
+    c10_audit.origin_running_rule(rep, u)
     return driver.finish(
         rep, "other",
         "Static analysis of the broadcast code in threadpool_msg_sys.c. Decided: the shared countdown is touched only "
